@@ -356,6 +356,11 @@ def classify(prop, case, why):
     return "unclassified"
 
 
+# properties whose extra probes also run on the unoptimised (cargo dev profile) build of the harness: a
+# recursion per line / per chain element that optimisation turns into a loop overflows the stack only there
+DEBUG_PROBE_PROPS = ("C06", "C13")
+
+
 def extra_checks(prop, tier, seed, harness, sh):
     """property specific probes beyond the case protocol: returns (failures, lines, stats)"""
     failures, lines, stats = [], [], {}
@@ -373,6 +378,28 @@ def extra_checks(prop, tier, seed, harness, sh):
                 else:
                     failures.append(("deep", f"stack overflow in the recursive typed API on a cause chain of depth {depth} "
                                      f"(process status {rc})", f"vharness deep {depth}", ""))
+    if prop in DEBUG_PROBE_PROPS:
+        # stack depth per blank line / bad line / chain element / array dimension, optimised and unoptimised
+        dbg = harness.replace(os.sep + "release" + os.sep, os.sep + "debug" + os.sep)
+        probes = [(harness, "opt", "deepnl", 200000), (dbg, "unopt", "deepnl", 200000)]
+        if prop == "C13":
+            probes += [(dbg, "unopt", "deep", 200000), (dbg, "unopt", "deepsig", 200000)]
+        for exe, label, cmd, n in probes:
+            rc, out = sh([exe, cmd, str(n)], timeout=900)
+            if cmd == "deepnl":
+                ok = rc == 0 and "done" in out and out.count("=true") == 4 * 6 + 2 and "=false" not in out
+            elif cmd == "deep":
+                ok = rc == 0 and "dropped" in out and "same_as_text=true" in out
+            else:
+                ok = rc == 0 and "done" in out and out.count("same=true some=true") == 2
+            lines.append(f"{cmd} n={n} ({label} build): {'ok' if ok else 'process died / wrong (status %d)' % rc}")
+            stats[f"{cmd}{n}-{label}:{'ok' if ok else 'died'}"] = 1
+            if not ok:
+                what = {"deepnl": f"a mapping with runs of {n} consecutive line terminators / {n} bad lines",
+                        "deep": f"typed remapping of a cause chain of depth {n}",
+                        "deepsig": f"a descriptor with {n} array dimensions / parameters"}[cmd]
+                failures.append((cmd, f"{what} kills or changes the result of the library in the {label} build "
+                                 f"(status {rc}): {out[-200:]}", f"{os.path.basename(os.path.dirname(exe))}/vharness {cmd} {n}", ""))
     if prop in ("C12", "C13", "C16"):
         # descriptors with very many array dimensions / parameters (the model's formatter is quadratic there)
         for n in ((3000, 200000) if prop != "C16" or tier != "quick" else (3000,)):
